@@ -492,3 +492,9 @@ func init() {
 func init() {
 	mutant("send-lock-held-while-taking-the-ctx", "lock-order", "conn.go", "	delete(c.pending, id)\n	c.sendLck.Unlock()\n\n	if pb == nil || pb.stream == nil {", "	delete(c.pending, id)\n	defer c.sendLck.Unlock()\n\n	if pb == nil || pb.stream == nil {")
 }
+
+func init() {
+	mutant("teardown-waits-for-ever", "server-teardown-bounded", "serverConn.go", "		select {\n		case <-writeDone:\n		case <-time.After(writeDrainTimeout):\n		}", "		<-writeDone")
+	mutant("write-stop-never-closed", "server-teardown-bounded", "serverConn.go", "		close(sc.writeStop)\n	}()", "	}()")
+	mutant("socket-left-open-by-writer", "server-teardown-bounded", "serverConn.go", "		defer func() {\n			_ = sc.c.Close()\n		}()\n\n		sc.writeLoop()", "		sc.writeLoop()")
+}
